@@ -113,7 +113,7 @@ def _desugar_map_collect(caller, bi, by_path):
     return _desugar_for_each(caller, bi, by_path, collect_into_vec=True)
 
 
-def _desugar_for_each(caller, bi, by_path, collect_into_vec=False):
+def _desugar_for_each(caller, bi, by_path, collect_into_vec=False, try_mode=False):
     """`Iterator::for_each(iter, f)` -> an explicit `loop { match iter.next() { Some(x) => f(x), None => break } }` with the closure's body
     inlined, so that rules written for `for` loops see the same shape.  Returns True when the call was rewritten.
     collect_into_vec: the results of f are pushed into a fresh Vec that becomes the value of the call (map + collect)."""
@@ -138,8 +138,10 @@ def _desugar_for_each(caller, bi, by_path, collect_into_vec=False):
     dest, target = t["dest"], t["target"]
     nb = len(blocks)
     H, S, B, E, U = nb, nb + 1, nb + 2, nb + 3, nb + 4
-    P_ = nb + 5          # push block (map + collect only)
-    after_f = P_ if collect_into_vec else H
+    P_ = nb + 5          # push block (map + collect) / `?` on the closure's result (try_for_each)
+    after_f = P_ if (collect_into_vec or try_mode) else H
+    if try_mode and not (not dest["p"] and locs[dest["l"]]["ty"].startswith("std::result::Result<")):
+        return False
     blocks[bi]["stmts"].append({"k": "assign", "pl": {"l": l_it, "p": []}, "rv": {"k": "use", "ops": [copy.deepcopy(it_op)]}, "sp": sp, "inl": "for_each"})
     if collect_into_vec:
         vty = locs[dest["l"]]["ty"] if not dest["p"] else "std::vec::Vec<?>"
@@ -174,9 +176,30 @@ def _desugar_for_each(caller, bi, by_path, collect_into_vec=False):
         blocks.append({"stmts": [elem_stmt, {"k": "assign", "pl": {"l": l_env, "p": []}, "rv": env, "sp": sp}], "term": fake})
     if collect_into_vec:
         blocks.append({"stmts": [{"k": "assign", "pl": copy.deepcopy(dest), "rv": {"k": "use", "ops": [{"k": "move", "pl": {"l": l_vec, "p": []}}]}, "sp": sp}], "term": {"k": "goto", "target": target, "sp": sp}})
+    elif try_mode:
+        l_u = newl("()")
+        blocks.append({"stmts": [{"k": "assign", "pl": {"l": l_u, "p": []}, "rv": {"k": "agg", "ops": [], "agg": "tuple"}, "sp": sp},
+                                 {"k": "assign", "pl": copy.deepcopy(dest), "rv": {"k": "agg", "ops": [{"k": "move", "pl": {"l": l_u, "p": []}}], "agg": "adt", "adt": "std::result::Result",
+                                                                                  "adtargs": "std::result::Result", "variant": "Ok", "vidx": 0, "fields": ["0"]}, "sp": sp}],
+                       "term": {"k": "goto", "target": target, "sp": sp}})
     else:
         blocks.append({"stmts": [{"k": "assign", "pl": copy.deepcopy(dest), "rv": {"k": "agg", "ops": [], "agg": "tuple"}, "sp": sp}], "term": {"k": "goto", "target": target, "sp": sp}})
     blocks.append({"stmts": [], "term": {"k": "unreachable", "sp": sp}})
+    if try_mode:
+        # P_: `match Try::branch(r) { Continue(()) => next iteration, Break(residual) => return FromResidual::from_residual(residual) }`
+        l_cf, l_cd, l_rs = newl("std::ops::ControlFlow<?, ()>"), newl("isize"), newl("?")
+        SW, BK = nb + 6, nb + 7
+        br = "<std::result::Result<(), ?> as std::ops::Try>::branch"
+        fr = "<std::result::Result<(), ?> as std::ops::FromResidual<?>>::from_residual"
+        blocks.append({"stmts": [], "term": {"k": "call", "func": {"k": "const", "ty": "fn", "fn": "std::ops::Try::branch", "fnargs": br}, "args": [{"k": "move", "pl": {"l": l_unit, "p": []}}],
+                                              "dest": {"l": l_cf, "p": []}, "target": SW, "fnsp": sp, "sp": sp, "callee": "std::ops::Try::branch", "callee_args": br, "targs": [],
+                                              "trait": "std::ops::Try", "exp": True}})
+        blocks.append({"stmts": [{"k": "assign", "pl": {"l": l_cd, "p": []}, "rv": {"k": "discr", "pl": {"l": l_cf, "p": []}}, "sp": sp}],
+                       "term": {"k": "switch", "discr": {"k": "move", "pl": {"l": l_cd, "p": []}}, "dty": "isize", "arms": [["0", H], ["1", BK]], "otherwise": U, "sp": sp}})
+        blocks.append({"stmts": [{"k": "assign", "pl": {"l": l_rs, "p": []}, "rv": {"k": "use", "ops": [{"k": "move", "pl": {"l": l_cf, "p": [["downcast", 1, "Break"], ["field", 0, "0"]]}}]}, "sp": sp}],
+                       "term": {"k": "call", "func": {"k": "const", "ty": "fn", "fn": "std::ops::FromResidual::from_residual", "fnargs": fr}, "args": [{"k": "move", "pl": {"l": l_rs, "p": []}}],
+                                "dest": copy.deepcopy(dest), "target": target, "fnsp": sp, "sp": sp, "callee": "std::ops::FromResidual::from_residual", "callee_args": fr, "targs": [],
+                                "trait": "std::ops::FromResidual", "exp": True}})
     if collect_into_vec:
         push = "std::vec::Vec::<?>::push"
         blocks.append({"stmts": [{"k": "assign", "pl": {"l": l_vref, "p": []}, "rv": {"k": "ref", "bk": "mut", "pl": {"l": l_vec, "p": []}}, "sp": sp}],
@@ -202,7 +225,7 @@ def inline_new_helpers(raw, baseline=None):
     for b in raw["bodies"]:
         for _ in range(MAX_DEPTH):
             sites = [bi for bi, bb in enumerate(b["blocks"]) if bb["term"].get("k") == "call" and not bb.get("cleanup")
-                     and (bb["term"].get("callee") or "").endswith("iter::Iterator::for_each")]
+                     and ((bb["term"].get("callee") or "").endswith("iter::Iterator::for_each") or (bb["term"].get("callee") or "").endswith("iter::Iterator::try_for_each"))]
             if not sites or len(b["blocks"]) > MAX_BLOCKS:
                 break
             if pristine_all is None:
@@ -213,7 +236,7 @@ def inline_new_helpers(raw, baseline=None):
                     if _desugar_map_collect(b, bi, pristine_all):
                         done.append((b["path"], "map_collect"))
                         n += 1
-                elif _desugar_for_each(b, bi, pristine_all):
+                elif _desugar_for_each(b, bi, pristine_all, try_mode=(b["blocks"][bi]["term"].get("callee") or "").endswith("try_for_each")):
                     done.append((b["path"], "for_each"))
                     n += 1
             if not n:
@@ -238,6 +261,19 @@ def inline_new_helpers(raw, baseline=None):
             for bi, tgt in sites:
                 _inline_one(b, bi, pristine[tgt])
                 done.append((b["path"], tgt))
+    # helpers whose every call was replaced: their own bodies no longer need to be scanned (the code lives in the callers now)
+    still_called = set()
+    for b in raw["bodies"]:
+        if b["path"] in helpers:
+            continue
+        for bb in b["blocks"]:
+            t = bb["term"]
+            if t.get("k") == "call":
+                for cand in (t.get("res"), t.get("callee")):
+                    if cand in helpers:
+                        still_called.add(cand)
+    used = {h for _, h in done if h in helpers}
+    raw["_absorbed_helpers"] = sorted(h for h in helpers if h in used and h not in still_called)
     return done
 
 
